@@ -119,7 +119,14 @@ func rewriteParentRef(sp *spec.Swagger, key string, ref spec.Ref) error {
 		container[idx] = spec.Schema{SchemaProps: spec.SchemaProps{Ref: ref}}
 
 	case *spec.SchemaOrArray:
-		// NOTE: this is necessarily an array - otherwise, the parent would be *Schema
+		if entry == "not" && container.Schema != nil && container.Schema.Not != nil {
+			// "items" is a single schema, which holds the rewritten schema under "not"
+			*container.Schema.Not = spec.Schema{SchemaProps: spec.SchemaProps{Ref: ref}}
+
+			break
+		}
+
+		// NOTE: otherwise, this is necessarily an array - the parent would be *Schema
 		idx, err := strconv.Atoi(entry)
 		if err != nil {
 			return ErrNotANumber(key[1:], err)
@@ -146,7 +153,13 @@ func rewriteParentRef(sp *spec.Swagger, key string, ref spec.Ref) error {
 		}
 		*container.Not = spec.Schema{SchemaProps: spec.SchemaProps{Ref: ref}}
 
-	// NOTE: can't have case *spec.SchemaOrBool = parent in this case is *Schema
+	case *spec.SchemaOrBool:
+		// NOTE: the parent of a schema held by additionalProperties or additionalItems is *Schema,
+		// unless it is held under their "not"
+		if entry != "not" || container.Schema == nil || container.Schema.Not == nil {
+			return ErrUnhandledParentRewrite(key, pvalue)
+		}
+		*container.Schema.Not = spec.Schema{SchemaProps: spec.SchemaProps{Ref: ref}}
 
 	default:
 		return ErrUnhandledParentRewrite(key, pvalue)
